@@ -245,6 +245,16 @@ theorem cText_append_zeros (t : List Nat) (ht : ∀ b ∈ t, b ≠ 0) (m : Nat) 
     simp only [List.cons_append, cText, if_neg hb]
     rw [ih (fun x hx => ht x (by simp [hx]))]; rfl
 
+/-- a reader stops at the first NUL whatever follows it -/
+theorem cText_append_zero_cons (t : List Nat) (ht : ∀ b ∈ t, b ≠ 0) (rest : List Nat) :
+    cText (t ++ 0 :: rest) = some t := by
+  induction t with
+  | nil => simp [cText]
+  | cons b r ih =>
+    have hb : b ≠ 0 := ht b (by simp)
+    simp only [List.cons_append, cText, if_neg hb]
+    rw [ih (fun x hx => ht x (by simp [hx]))]; rfl
+
 theorem cText_none_of_nonzero (t : List Nat) (ht : ∀ b ∈ t, b ≠ 0) : cText t = none := by
   induction t with
   | nil => rfl
